@@ -100,13 +100,15 @@ def run(ck):
              dict(w=168, h=64, n=8, decode=0, content=0, **{'f:enc_mode': 8}),
              dict(w=104, h=64, n=8, decode=0, content=2, **{'f:enc_mode': 5}),
              dict(w=176, h=136, n=7, decode=0, content=5, **{'f:enc_mode': 8, 'f:screen_content_mode': 1}),
-             dict(w=184, h=120, n=8, decode=0, content=6, **{'f:enc_mode': 4})]
+             dict(w=184, h=120, n=8, decode=0, content=6, **{'f:enc_mode': 4}),
+             # flat full-range residuals at a large quantizer step: transform coefficients at the top of the int16 range (saturating SIMD arithmetic)
+             dict(w=128, h=128, n=4, decode=0, content=9, cseed=1, **{'f:enc_mode': 8, 'f:qp': 50}), dict(w=128, h=128, n=4, decode=0, content=9, cseed=3, **{'f:enc_mode': 8, 'f:qp': 50})]
     if ck.tier == 'thorough':
         bases += [dict(w=320, h=192, n=8, decode=0, content=c, bits=b, **{'f:enc_mode': p, 'f:qp': q}) for c, b, p, q in [(1, 8, 2, 25), (2, 10, 4, 35), (4, 10, 8, 10), (6, 8, 0, 40), (5, 8, 5, 50)]]
     variants = [(n, dict(cpu='%x' % v)) for n, v in LEVELS]
     n = meta.compare(ck, binp, stamp, bases, variants, 'use_cpu_flags', timeout=400, jobs=8)
     ck.cov['traces_validated_against_impl'] = n * len(variants)
-    ck.cov['rule'] = 'flag words: each cumulative level, single / gapped levels, seeded random words; encodes: 9 sizes covering every width class mod 64, contents (noise, flat, extremes, gradient 10-bit, screen, mixed motion) x 8 instruction-set levels'
+    ck.cov['rule'] = 'flag words: each cumulative level, single / gapped levels, seeded random words; encodes: 9 sizes covering every width class mod 64, contents (noise, flat, extremes, flat 0/255 squares at qp 50, gradient 10-bit, screen, mixed motion) x 8 instruction-set levels'
     br = ck.broken_obligations()
     if br and not ck.violations:
         ck.violation('obligation_broken', 'C06 proof/tie no longer checks: ' + '; '.join('%s (%s)' % (n_, d[:200]) for n_, d in br[:3]), dict(broken=[dict(name=n_, detail=d) for n_, d in br]), False)
